@@ -15,6 +15,8 @@ pub mod chrono {
     #[verifier::external_body]
     pub struct ExDuration(Duration);
     pub type TimeDelta = Duration;
+    pub assume_specification[<Duration as Clone>::clone](d: &Duration) -> (r: Duration) ensures r == *d;
+    pub assume_specification<Tz: Clone>[<DateTime<Tz> as Clone>::clone](d: &DateTime<Tz>) -> (r: DateTime<Tz>) ensures r == *d;
 
     /// total length in nanoseconds (chrono stores secs + nanos; range is about +-9.2e18 ms)
     pub uninterp spec fn dur_ns(d: Duration) -> int;
